@@ -107,6 +107,10 @@ func (it *Generator) Send(arg Object) (Object, error) {
 	if it.Frame.Yielded {
 		return res, nil
 	}
+	if res != nil && res != None {
+		// return <value> in a generator: the StopIteration carries the value
+		return nil, exceptionNew(StopIteration, Tuple{res})
+	}
 	return nil, StopIteration
 }
 
